@@ -132,16 +132,19 @@ def evaluate_on_grid(
     return out
 
 
-@njit(parallel=True)
+@njit
 def hist2d(x, y, values, xmin, xmax, nx, ymin, ymax, ny):
     out = np.zeros(shape=(values.shape[0], ny, nx), dtype=np.float64)
     counts = np.zeros(shape=(ny, nx), dtype=np.int64)
     dx = (xmax - xmin) / nx
     dy = (ymax - ymin) / ny
 
-    for i in prange(len(x)):
-        indx = int((x[i] - xmin) / dx)
-        indy = int((y[i] - ymin) / dy)
+    # The bins are shared accumulators: the loop over the points is serial
+    for i in range(len(x)):
+        if not (np.isfinite(x[i]) and np.isfinite(y[i])):
+            continue
+        indx = int(np.floor((x[i] - xmin) / dx))
+        indy = int(np.floor((y[i] - ymin) / dy))
         if (indx >= 0) and (indx < nx) and (indy >= 0) and (indy < ny):
             out[:, indy, indx] += values[:, i]
             counts[indy, indx] += 1
